@@ -331,12 +331,18 @@ func (w *world) close() {
 	w.server.h.Close()
 }
 
+// errConfig: the component rejected a configuration the harness considers valid
+// (a list of peer ids and "*"). That is an observation, not an infrastructure failure.
+type errConfig struct{ err error }
+
+func (e errConfig) Error() string { return "configuration rejected: " + e.err.Error() }
+
 // newCRDT builds a real crdt consensus on a node from a JSON configuration.
 func newCRDT(n *node, name string, trusted []string) (*crdt.Consensus, error) {
 	js, _ := json.Marshal(map[string]interface{}{"cluster_name": name, "trusted_peers": trusted, "rebroadcast_interval": "1s"})
 	cfg := &crdt.Config{}
 	if err := cfg.LoadJSON(js); err != nil {
-		return nil, fmt.Errorf("crdt LoadJSON: %v", err)
+		return nil, errConfig{err}
 	}
 	cfg.DatastoreNamespace = "/" + name
 	cc, err := crdt.New(n.h, n.dht, n.psub, cfg, inmem.New())
@@ -508,8 +514,25 @@ func (w *world) call(s *served, caller int, ep endpoint) string {
 	return out
 }
 
-// rawCall speaks the wire protocol by hand: service id, then end of stream.
-func (w *world) rawCall(caller int, ep endpoint) string {
+// junk opens an RPC stream and writes bytes that are not a request; the server must survive it
+// (the calls that follow on the same connection show that it did).
+func (w *world) junk(caller int, b []byte) {
+	cctx, cancel := context.WithTimeout(ctx, 5*time.Second)
+	defer cancel()
+	st, err := w.clients[caller-1].h.NewStream(cctx, w.server.h.ID(), version.RPCProtocol)
+	if err != nil {
+		return
+	}
+	st.SetDeadline(time.Now().Add(5 * time.Second))
+	st.Write(b)
+	st.CloseWrite()
+	buf := make([]byte, 256)
+	st.Read(buf)
+	st.Reset()
+}
+
+// rawCall speaks the wire protocol by hand: service id, then garbage (or nothing) and end of stream.
+func (w *world) rawCall(caller int, ep endpoint, garbage []byte) string {
 	cctx, cancel := context.WithTimeout(ctx, 20*time.Second)
 	defer cancel()
 	st, err := w.clients[caller-1].h.NewStream(cctx, w.server.h.ID(), version.RPCProtocol)
@@ -523,6 +546,7 @@ func (w *world) rawCall(caller int, ep endpoint) string {
 	if err := codec.NewEncoder(bw, h).Encode(rpc.ServiceID{Name: ep.svc, Method: ep.method}); err != nil {
 		return "inconclusive encode"
 	}
+	bw.Write(garbage)
 	if err := bw.Flush(); err != nil {
 		return "inconclusive flush"
 	}
@@ -571,7 +595,7 @@ func emit(out *common.Out, line, res string) {
 }
 
 // runConfig emits every line of one configuration.
-func (w *world) runConfig(out *common.Out, c config, rpcLines bool, rawEvery int) error {
+func (w *world) runConfig(out *common.Out, c config, rpcLines bool, rawEvery int, r *common.Rng) error {
 	s, err := w.serve(c)
 	if err != nil {
 		return err
@@ -592,12 +616,28 @@ func (w *world) runConfig(out *common.Out, c config, rpcLines bool, rawEvery int
 	}
 	n := 0
 	for caller := 0; caller <= nClients; caller++ {
+		if caller > 0 {
+			// malformed streams first: random bytes, and a service id cut short
+			junk := make([]byte, r.Range(1, 40))
+			for i := range junk {
+				junk[i] = byte(r.Next())
+			}
+			w.junk(caller, junk)
+			w.junk(caller, []byte{0x82, 0xa4, 'N', 'a', 'm', 'e', 0xa7, 'C', 'l', 'u'})
+		}
 		for _, ep := range w.eps {
 			line := fmt.Sprintf("C07 rpc %s 0 %s %s %s", c.prefix(), callerStr(caller), ovsStr(c.ovs), epName(ep))
 			emit(out, line, w.call(s, caller, ep))
 			n++
 			if caller > 0 && rawEvery > 0 && n%rawEvery == 0 {
-				emit(out, line, w.rawCall(caller, ep))
+				var g []byte
+				if r.Bool() {
+					g = make([]byte, r.Range(1, 24))
+					for i := range g {
+						g[i] = byte(r.Next())
+					}
+				}
+				emit(out, line, w.rawCall(caller, ep, g))
 			}
 		}
 	}
@@ -678,7 +718,11 @@ func genConfig0(r *common.Rng, w *world, k int) config {
 	if c.mode == "raft" && r.Bool() {
 		c.raw = nil
 	}
-	for n := r.Intn(6); n > 0; n-- {
+	nops := r.Intn(6)
+	if r.Chance(1, 10) {
+		nops = r.Range(6, 12)
+	}
+	for n := nops; n > 0; n-- {
 		p := r.Range(1, nClients)
 		if r.Chance(1, 5) {
 			p = r.Intn(universe)
@@ -802,7 +846,11 @@ func (w *world) replayAuth(out *common.Out) {
 			}
 			s, err := w.serve(c)
 			if err != nil {
-				out.Line("# inconclusive C07 %s (setup: %v)", strings.Join(f, " "), err)
+				if _, ok := err.(errConfig); ok {
+					out.Line("C07 %s => cfgerr", strings.Join(f, " "))
+				} else {
+					out.Line("# inconclusive C07 %s (setup: %v)", strings.Join(f, " "), err)
+				}
 				continue
 			}
 			cur, curKey = s, key
@@ -852,7 +900,8 @@ func (w *world) replayAuth(out *common.Out) {
 			}
 			emit(out, in, w.call(cur, caller, *ep))
 			if caller > 0 {
-				emit(out, in, w.rawCall(caller, *ep))
+				emit(out, in, w.rawCall(caller, *ep, nil))
+				emit(out, in, w.rawCall(caller, *ep, []byte{0xc1, 0xff, 0x00, 0x93}))
 			}
 		}
 	}
@@ -895,8 +944,12 @@ func main() {
 		r := root.Fork(uint64(k))
 		c := genConfig(r, w, k)
 		full := k < len(boundary) || k%4 == 0
-		if err := w.runConfig(out, c, full, 7); err != nil {
-			out.Line("# inconclusive C07 config %d %s (setup: %v)", k, c.prefix(), err)
+		if err := w.runConfig(out, c, full, 7, r); err != nil {
+			if _, ok := err.(errConfig); ok {
+				out.Line("C07 trust %s %s %s 0 0 => cfgerr", c.mode, rawStr(c.raw), opsStr(c.ops))
+			} else {
+				out.Line("# inconclusive C07 config %d %s (setup: %v)", k, c.prefix(), err)
+			}
 		}
 		out.Flush()
 	}
